@@ -3,7 +3,7 @@
 From Coq Require Import String.
 From Coq Require Import List NArith ZArith Arith Bool Lia.
 Import ListNotations.
-From TV Require Import Lib.Obs C08.Base C08.BaseProofs C08.Model C08.Run C08.Proofs C08.Proofs2 C08.ProofsChunk.
+From TV Require Import Lib.Obs C08.Base C08.BaseProofs C08.Model C08.Run C08.Proofs C08.Proofs2 C08.ProofsChunk C08.ProofsFuel.
 
 (* ---------- header-map facts ---------- *)
 Lemma hget_hadd_other h k k' v : beqb k' k = false -> hget (hadd h k v) k' = hget h k'.
@@ -159,15 +159,15 @@ Section Strict.
 
   (* no complete header block before EOF / none within max_header_size *)
   Theorem reject_truncated_head b :
-    w_delim find_term (max_header c) b = REof -> strict b = Res (OErr EStreamClosed) true [].
+    w_delim find_term (max_header c) b = REof -> strict b = Res (OErr EStreamClosed) true [] false.
   Proof. intros H. rewrite strict_step. cbn [frame rd_regex whole_ops]. rewrite H. reflexivity. Qed.
   Theorem reject_oversize_head b :
-    w_delim find_term (max_header c) b = RUnsat -> strict b = Res (OErr EUnsat) false [].
+    w_delim find_term (max_header c) b = RUnsat -> strict b = Res (OErr EUnsat) false [] false.
   Proof. intros H. rewrite strict_step. cbn [frame rd_regex whole_ops]. rewrite H. reflexivity. Qed.
 
   (* malformed status line or header line *)
   Theorem reject_unparsable_head b hd rest :
-    head_at b hd rest -> parse_resp_head hd = None -> strict b = Res (OErr EMalformed) false [].
+    head_at b hd rest -> parse_resp_head hd = None -> strict b = Res (OErr EMalformed) false [] false.
   Proof.
     intros H P. rewrite strict_step. cbn [frame rd_regex whole_ops]. rewrite H, P. reflexivity.
   Qed.
@@ -177,19 +177,26 @@ Section Strict.
     unfold headers_received. destruct (decompress c); [|reflexivity].
     destruct (gz_headers h0). reflexivity.
   Qed.
+  Lemma sent_hr d h0 : d_sent (fst (headers_received gnew c d h0)) = d_sent d.
+  Proof.
+    unfold headers_received. destruct (decompress c); [|reflexivity].
+    destruct (gz_headers h0). reflexivity.
+  Qed.
 
   (* an interim response that announces a body *)
   Theorem reject_interim_with_framing b hd rest code reason h0 :
     head_at b hd rest -> parse_resp_head hd = Some (code, reason, h0) -> is_1xx code = true ->
     hmem h0 K_CL || hmem h0 K_TE = true ->
-    strict b = Res (OErr EConnClosed) false [].
+    strict b = Res (OErr EConnClosed) false [] (expect100 c && (code =? 100)%N).
   Proof.
     intros H P X F. rewrite strict_step. cbn [frame rd_regex whole_ops]. rewrite H, P.
     pose proof (headers_received_framing gnew c (d0 g0) h0 K_CL eq_refl eq_refl) as E1.
     pose proof (headers_received_framing gnew c (d0 g0) h0 K_TE eq_refl eq_refl) as E2.
     pose proof (streamed_hr (d0 g0) h0) as E3.
-    destruct (headers_received gnew c (d0 g0) h0) as [d1 h]. cbn [fst snd] in *.
-    rewrite X. unfold hmem in *. rewrite E1, E2, F, E3. reflexivity.
+    pose proof (sent_hr (d0 g0) h0) as E4.
+    destruct (headers_received gnew c (d0 g0) h0) as [d1 h]. cbn [fst snd d_sent d0] in *.
+    rewrite X, E4, andb_false_r. unfold hmem in *. rewrite E1, E2, F.
+    destruct (expect100 c && (code =? 100)%N); cbn [set_sent d_streamed d_sent]; rewrite E3; try rewrite E4; reflexivity.
   Qed.
 
   (* the final (non-interim) message of a stream that starts with it *)
@@ -208,19 +215,21 @@ Section Strict.
 
   Lemma final_streamed b rest code reason d1 h : final_at b rest code reason d1 h -> d_streamed d1 = [].
   Proof. intros (hd & h0 & _ & _ & _ & HR). pose proof (streamed_hr (d0 g0) h0) as E. rewrite HR in E. exact E. Qed.
+  Lemma final_sent b rest code reason d1 h : final_at b rest code reason d1 h -> d_sent d1 = false.
+  Proof. intros (hd & h0 & _ & _ & _ & HR). pose proof (sent_hr (d0 g0) h0) as E. rewrite HR in E. exact E. Qed.
 
   (* Content-Length + Transfer-Encoding, bad Content-Length, unsupported coding, 204 with a body ... *)
   Theorem reject_bad_framing b rest code reason d1 h :
     final_at b rest code reason d1 h -> is_head c || (code =? 304)%N = false ->
     body_plan (max_body c) code h = None ->
-    strict b = Res (OErr EConnClosed) false [].
+    strict b = Res (OErr EConnClosed) false [] false.
   Proof.
     intros F K BP. rewrite (strict_final _ _ _ _ _ _ F), K. unfold read_body. rewrite BP.
-    rewrite (final_streamed _ _ _ _ _ _ F). reflexivity.
+    rewrite (final_streamed _ _ _ _ _ _ F), (final_sent _ _ _ _ _ _ F). reflexivity.
   Qed.
 
   Definition is_response (r : result) : Prop :=
-    match r with Res (OResp _ _ _ _) _ _ => True | _ => False end.
+    match r with Res (OResp _ _ _ _) _ _ _ => True | _ => False end.
 
   Lemma finish_body_not_done d code reason h cs (b : bstat bytes) :
     (forall s, b <> BDone s) -> ~ is_response (finish_body inflate gflush c d code reason h cs b).
@@ -243,7 +252,7 @@ Section Strict.
   Theorem reject_truncated_fixed_body_plain b rest code reason d1 h n h' :
     final_at b rest code reason d1 h -> is_head c || (code =? 304)%N = false -> decompress c = false ->
     body_plan (max_body c) code h = Some (PFixed n, h') -> (N.of_nat (length rest) < n)%N ->
-    strict b = Res (OErr EConnClosed) true (if streaming c then rest else []).
+    strict b = Res (OErr EConnClosed) true (if streaming c then rest else []) false.
   Proof.
     intros F K D BP L. rewrite (strict_final _ _ _ _ _ _ F), K. unfold read_body. rewrite BP.
     destruct F as (hd & h0 & _ & _ & _ & HR). unfold headers_received in HR. rewrite D in HR.
@@ -272,21 +281,21 @@ Section Strict.
   Theorem reject_oversize_close_body b rest code reason d1 h h' :
     final_at b rest code reason d1 h -> is_head c || (code =? 304)%N = false ->
     body_plan (max_body c) code h = Some (PClose, h') -> (max_body c < N.of_nat (length rest))%N ->
-    strict b = Res (OErr EConnClosed) true [].
+    strict b = Res (OErr EConnClosed) true [] false.
   Proof.
     intros F K BP L. rewrite (strict_final _ _ _ _ _ _ F), K. unfold read_body. rewrite BP.
     cbn [rd_all whole_ops]. apply N.ltb_lt in L. rewrite L.
-    rewrite (final_streamed _ _ _ _ _ _ F). reflexivity.
+    rewrite (final_streamed _ _ _ _ _ _ F), (final_sent _ _ _ _ _ _ F). reflexivity.
   Qed.
 
   (* a gzip stream that has not reached its end when the body ends; flush() returning data *)
   Theorem reject_truncated_gzip d code reason h e g' :
     d_gzon d = true -> d_gzrecv d = true -> gflush (d_gz d) = (g', false, false) ->
-    do_finish gflush c d code reason h e = Res (OErr EMalformed) e (d_streamed d).
+    do_finish gflush c d code reason h e = Res (OErr EMalformed) e (d_streamed d) (d_sent d).
   Proof. intros A B C. unfold do_finish. rewrite A, C, B. reflexivity. Qed.
   Theorem reject_gzip_flush_tail d code reason h e g' ateof :
     d_gzon d = true -> gflush (d_gz d) = (g', true, ateof) ->
-    do_finish gflush c d code reason h e = Res (OErr EQuiet) e (d_streamed d).
+    do_finish gflush c d code reason h e = Res (OErr EQuiet) e (d_streamed d) (d_sent d).
   Proof. intros A C. unfold do_finish. rewrite A, C. reflexivity. Qed.
 
   (* ---------- round trips (decompress_response off) ---------- *)
@@ -299,7 +308,7 @@ Section Strict.
 
   Definition delivered_as (body : bytes) (code : N) (reason : option bytes) (h : headers) (eof : bool) : result :=
     Res (OResp code reason (get_all h) (if streaming c then [] else body)) eof
-        (if streaming c then body else []).
+        (if streaming c then body else []) false.
 
   Lemma finish_plain code reason h body e :
     do_finish gflush c (inner_data c (d0 g0) body) code reason h e = delivered_as body code reason h e.
@@ -382,6 +391,7 @@ Section Strict.
     destruct (parse_resp_head hd) as [[[code reason] h0]|]; [|reflexivity].
     destruct (headers_received gnew c d h0) as [d1 h].
     destruct (is_1xx code); [|reflexivity].
+    destruct (expect100 c && (code =? 100)%N && d_sent d1); [reflexivity|].
     destruct (hmem h K_CL || hmem h K_TE); [reflexivity|].
     apply IH. exact H.
   Qed.
@@ -392,24 +402,56 @@ Section Strict.
     rewrite frame_more_fuel; [apply IH; exact H|]. rewrite IH; exact H.
   Qed.
 
-  (* a 1xx message without Content-Length / Transfer-Encoding contributes nothing: the fetch
-     is the fetch of what follows it *)
-  Theorem interim_is_skipped b hd rest code reason h0 :
-    head_at b hd rest -> parse_resp_head hd = Some (code, reason, h0) -> is_1xx code = true ->
-    hmem h0 K_CL || hmem h0 K_TE = false -> decompress c = false ->
-    strict rest <> OutOfFuel ->
-    strict b = strict rest.
+  Lemma head_consumes b hd rest : head_at b hd rest -> (Datatypes.S (length rest) <= length b)%nat.
   Proof.
-    intros H P X F D NF. rewrite strict_step. cbn [frame rd_regex whole_ops]. rewrite H, P.
-    unfold headers_received. rewrite D, X, F.
-    rewrite (strict_step rest) in *.
-    apply frame_fuel_le; [|exact NF].
-    unfold head_at, w_delim, delim_pos in H.
+    unfold head_at, w_delim, delim_pos. intros H.
     destruct (find_term b) as [e|] eqn:FT.
     - destruct (e <=? max_header c)%nat; [|discriminate]. inversion H; subst.
       pose proof (st_range _ find_term_stable _ _ FT) as R.
       rewrite skipn_length. lia.
     - destruct (max_header c <? length b)%nat; discriminate.
+  Qed.
+
+  (* a 1xx message without Content-Length / Transfer-Encoding that is not the awaited
+     100 (Continue) contributes nothing: the fetch is the fetch of what follows it *)
+  Theorem interim_is_skipped b hd rest code reason h0 :
+    head_at b hd rest -> parse_resp_head hd = Some (code, reason, h0) -> is_1xx code = true ->
+    hmem h0 K_CL || hmem h0 K_TE = false -> decompress c = false ->
+    expect100 c && (code =? 100)%N = false ->
+    strict b = strict rest.
+  Proof.
+    intros H P X F D W. rewrite strict_step. cbn [frame rd_regex whole_ops]. rewrite H, P.
+    unfold headers_received. rewrite D, X, W, F. cbn [andb].
+    rewrite (strict_step rest).
+    apply frame_fuel_le; [apply (head_consumes _ _ _ H)|].
+    apply frame_whole_fuel. lia.
+  Qed.
+
+  (* expect_100_continue: the awaited 100 (Continue) makes the client write the held-back body;
+     the fetch continues on what follows, with the body marked as written *)
+  Theorem continue_sends_body b hd rest reason h0 :
+    head_at b hd rest -> parse_resp_head hd = Some (100%N, reason, h0) ->
+    hmem h0 K_CL || hmem h0 K_TE = false -> decompress c = false -> expect100 c = true ->
+    strict b = fetch_sent whole_ops inflate gflush gnew c g0 rest.
+  Proof.
+    intros H P F D E. rewrite strict_step. cbn [frame rd_regex whole_ops]. rewrite H, P.
+    unfold headers_received. rewrite D, E. cbn [is_1xx N.leb N.ltb N.compare Pos.compare Pos.compare_cont andb N.eqb Pos.eqb d_sent d0].
+    rewrite F. unfold fetch_sent. cbn [remaining whole_ops].
+    apply frame_fuel_le; [apply (head_consumes _ _ _ H)|].
+    apply frame_whole_fuel. lia.
+  Qed.
+
+  (* ... and a second 100 (Continue) is refused: the body is not written twice *)
+  Theorem repeated_continue_rejected b hd rest reason h0 :
+    head_at b hd rest -> parse_resp_head hd = Some (100%N, reason, h0) -> expect100 c = true ->
+    fetch_sent whole_ops inflate gflush gnew c g0 b = Res (OErr EConnClosed) false [] true.
+  Proof.
+    intros H P E. unfold fetch_sent. cbn [frame rd_regex remaining whole_ops]. rewrite H, P.
+    pose proof (streamed_hr (set_sent (d0 g0)) h0) as E3.
+    pose proof (sent_hr (set_sent (d0 g0)) h0) as E4.
+    destruct (headers_received gnew c (set_sent (d0 g0)) h0) as [d1 h]. cbn [fst] in *.
+    rewrite E, E4. cbn [is_1xx N.leb N.ltb N.compare Pos.compare Pos.compare_cont andb N.eqb Pos.eqb d_sent set_sent].
+    rewrite E3. reflexivity.
   Qed.
 End Strict.
 
@@ -448,22 +490,28 @@ Theorem client_seg_eq_strict_plain c t segs :
   decompress c = false -> client_seg c t segs = strict_client c t (concat segs).
 Proof. intros D. unfold client_seg, strict_client. apply ref_plain. exact D. Qed.
 
-(* [OutOfFuel] is excluded by the premise; fuel sufficiency itself is not proved (NOTES.md) *)
-Theorem model_satisfies_checker_partial : forall i,
-  client_seg (cfg_of i) (tbl_of i) (segs_of i) <> OutOfFuel ->
-  check_case i (run_case i) = true.
+Theorem client_seg_never_out_of_fuel c t segs : client_seg c t segs <> OutOfFuel.
+Proof. unfold client_seg. apply seg_never_out_of_fuel. Qed.
+Theorem strict_client_never_out_of_fuel c t b : strict_client c t b <> OutOfFuel.
+Proof. unfold strict_client. apply strict_never_out_of_fuel. Qed.
+
+Theorem model_satisfies_checker : forall i, check_case i (run_case i) = true.
 Proof.
-  intros i NF. unfold run_case, check_case.
+  intros i. unfold run_case, check_case.
+  pose proof (client_seg_never_out_of_fuel (cfg_of i) (tbl_of i) (segs_of i)) as NF.
   pose proof (client_seg_ok (cfg_of i) (tbl_of i) (segs_of i)) as OKs.
   pose proof (client_seg_eq_strict_plain (cfg_of i) (tbl_of i) (segs_of i)) as REF.
-  destruct (client_seg (cfg_of i) (tbl_of i) (segs_of i)) as [o e st|] eqn:CS; [|congruence].
-  cbn [obs_of_result]. cbn [res_ok] in OKs. destruct OKs as [Hst Ho].
+  destruct (client_seg (cfg_of i) (tbl_of i) (segs_of i)) as [o e st sn|] eqn:CS; [|congruence].
+  cbn [obs_of_result]. cbn [res_ok] in OKs. destruct OKs as (Hsn & Hst & Ho).
+  assert (A0 : implb sn (expect100 (cfg_of i)) = true)
+    by (destruct sn; [rewrite (Hsn eq_refl)|]; reflexivity).
+  rewrite A0.
   assert (A1 : negb (obs_eqb (obs_of_outcome o) (OTag "Hang")) = true)
     by (destruct o as [code reason hs body|k]; [reflexivity|destruct k; reflexivity]).
   rewrite A1. cbn [blen length N.of_nat N.eqb andb].
   apply N.leb_le in Hst. rewrite Hst. cbn [andb].
   assert (A2 : (decompress (cfg_of i)
-               || obs_eqb (OList [obs_of_outcome o; OBytes st; OBytes []; OBool (negb e)])
+               || obs_eqb (OList [obs_of_outcome o; OBytes st; OBytes []; OBool (negb e); OBool sn])
                     (obs_of_result (strict_client (cfg_of i) (tbl_of i) (concat (segs_of i))))) = true).
   { destruct (decompress (cfg_of i)); [reflexivity|]. rewrite <- (REF eq_refl).
     cbn [orb obs_of_result]. apply obs_eqb_refl. }
